@@ -213,7 +213,44 @@ def sites(F):
     return out
 
 
-KINDS = ("missing", "foreign", "removed")
+KINDS = ("missing", "foreign", "removed", "foreign-shared", "foreign-data")
+PARENT_ATTRS = ("coordinates", "ancillary_variables", "cell_measures")   # the parent is the variable itself
+
+
+def _real_dims(v):
+    return [d for d in v["dims"] if not d.startswith("strlen")]
+
+
+def replacement(F, site, kind, dvs=()):
+    """The existing variable that replaces the token for the kinds 'foreign-shared' (a variable that
+    another variable validly names in the same attribute, but whose dimensions are foreign to this
+    parent) and 'foreign-data' (another data variable with foreign dimensions); None if there is none."""
+    vname, attr, i, role = site
+    if role != "var" or attr not in PARENT_ATTRS or vname is None:
+        return None
+    parent = get_var(F, vname)
+    pd = set(_real_dims(parent))
+    here = {t.rstrip(":") for t in tokens(parent["attrs"][attr])}
+    cands = []
+    if kind == "foreign-shared":
+        for w in F["vars"]:
+            s = w["attrs"].get(attr)
+            if w["name"] == vname or not isinstance(s, str):
+                continue
+            for t in tokens(s):
+                if t.endswith(":") or t in here or t in cands:
+                    continue
+                x = get_var(F, t)
+                if x is not None and not set(_real_dims(x)) <= pd:
+                    cands.append(t)
+    elif kind == "foreign-data":
+        for n in dvs:
+            x = get_var(F, n)
+            if n != vname and n not in here and x is not None and not set(_real_dims(x)) <= pd:
+                cands.append(n)
+    if not cands:
+        return None
+    return sorted(cands)[i % len(cands)]
 
 
 def ensure_foreign(F):
@@ -226,12 +263,20 @@ def ensure_foreign(F):
     return F
 
 
-def break_ref(F, site, kind):
+def break_ref(F, site, kind, dvs=()):
     """F with the token at `site` replaced by a missing name / a foreign variable / removed.
 
     Returns None when the fault kind does not apply (foreign for a dimension or key token)."""
     vname, attr, i, role = site
     G = clone(F)
+    if kind in ("foreign-shared", "foreign-data"):
+        r = replacement(F, site, kind, dvs)
+        if r is None:
+            return None
+        toks = tokens(get_var(G, vname)["attrs"][attr])
+        toks[i] = r
+        get_var(G, vname)["attrs"][attr] = join(toks)
+        return G
     if kind == "foreign":
         if role != "var":
             return None
@@ -340,11 +385,11 @@ def gen_grid(rng, rich=None):
                 _bounds_of(F, d)
             elif d == "time" and r < 0.6:
                 _bounds_of(F, d, attr="climatology")
-    ndata = rng.choice([1, 1, 2, 3])
+    ndata = rng.choice([1, 2, 2, 3])
     datavars = []
     for k in range(ndata):
         dd = list(use)
-        if k > 0 and len(dd) > 2 and rng.random() < 0.5:
+        if k > 0 and len(dd) > 2 and rng.random() < 0.6:
             dd = dd[1:]
         if rng.random() < 0.2 and len(dd) > 1:
             rng.shuffle(dd)
@@ -362,6 +407,11 @@ def gen_grid(rng, rich=None):
                     F["dims"].append(["nv4", 4])
                 F["vars"].append(var(n + "_bnds", ["y", "x", "nv4"], "f"))
                 get_var(F, n)["attrs"]["bounds"] = n + "_bnds"
+    if len(use) > 2 and rng.random() < 0.6:
+        # a coordinate on the leading dimension: foreign to a data variable that does not span it
+        F["vars"].append(var("tau", [use[0]], "f", long_name="leading aux",
+                             units="days since 2000-01-01" if use[0] == "time" else "1"))
+        auxs.append("tau")
     if rng.random() < (0.6 if rich else 0.2):
         d = rng.choice(use)
         if rng.random() < 0.5:
@@ -481,6 +531,12 @@ def gen_grid(rng, rich=None):
             if rng.random() < 0.2:
                 cms.append("area: mean")
             v["attrs"]["cell_methods"] = join(cms)
+    if len(datavars) > 1 and rng.random() < 0.35:
+        # the other creation order: the data variables in reverse file order
+        dv = [get_var(F, n) for n in datavars]
+        pos = [F["vars"].index(x) for x in dv]
+        for p_, x in zip(pos, reversed(dv)):
+            F["vars"][p_] = x
     return F
 
 
@@ -605,6 +661,16 @@ def gen_geometry(rng):
         F["vars"].append(var("crs", [], "i", grid_mapping_name="latitude_longitude", earth_radius=6371007.0))
         g["attrs"]["grid_mapping"] = "crs"
     F["vars"].append(g)
+    if rng.random() < 0.4:
+        # a domain variable (CF>=1.9): no netCDF dimensions, they are named by its `dimensions` attribute
+        dom = var("dom", [], "i", dimensions="instance time" if rng.random() < 0.5 else "instance",
+                  geometry="geometry_container", long_name="a domain")
+        if cs:
+            dom["attrs"]["coordinates"] = join(cs)
+        if rng.random() < 0.5:
+            F["vars"].append(dom)
+        else:
+            F["vars"].insert(0, dom)      # parsed before the data variables
     for k in range(rng.choice([1, 2])):
         name = ["pr", "someflux"][k]
         dd = ["instance", "time"] if rng.random() < 0.7 else ["time", "instance"]
